@@ -16,6 +16,7 @@ orbifold as `delaney2d::orbifold_symbol` — both are decided by the Spec on eve
 (D-set, geometry).
 -/
 import DSymVerif.Proofs.DSymGenGeom
+import DSymVerif.Proofs.DSymGenNodup
 import DSymVerif.Proofs.DSymGenBox
 import DSymVerif.Proofs.Delaney2dChi
 import DSymVerif.Spec.C07
@@ -305,6 +306,57 @@ example : ∃ c, mkCtx ex1 .all = .ok c ∧ ¬ c.baseCurv < 0 := by
   refine ⟨_, rfl, ?_⟩
   decide +kernel
 
+/-- **no vector is emitted twice**: for every D-set and geometry (`base_curvature ≥ 0`; in the
+    other case at most one vector is emitted at all) the `ok` items of the emitted sequence are
+    pairwise different — the subtrees below two children of a state differ in the entry the
+    state branches on. -/
+theorem no_vector_twice (ds : DSetData) (g : Geom) (c : Ctx) (h : mkCtx ds g = .ok c)
+    (hnb : ¬ c.baseCurv < 0) : ((dsyms c).filterMap okOf).Nodup :=
+  dsyms_nodup (mkCtx_wf h) hnb
+
+/-- the meaning of `is_canonical`: it answers `true` iff the orbit maps were computed and no
+    orbit map turns `vs` into a lexicographically larger vector (`Vec`'s `Ord`) — i.e. `vs` is the
+    lexicographic maximum of its images under the orbit maps. -/
+theorem canonical_iff (c : Ctx) (vs : List Nat) :
+    isCanonical c vs = .ok true ↔
+      ∃ ms, c.maps = some ms ∧ ∀ m, m ∈ ms → ∃ ws, permuted m vs = .ok ws ∧ lexLt vs ws = false := by
+  unfold isCanonical
+  cases hm : c.maps with
+  | none =>
+    simp only
+    constructor
+    · intro h; cases h
+    · rintro ⟨ms, h, _⟩; cases h
+  | some ms =>
+    simp only
+    rw [canonLoop_iff]
+    constructor
+    · intro h; exact ⟨ms, rfl, h⟩
+    · rintro ⟨ms', h, h'⟩; cases h; exact h'
+
+/-- **`symbol_count` numbers are 1, 2, 3, … in emission order**; the numbered sequence is the
+    emitted sequence, and `SimpleDSym::from_partial`'s completeness assertion holds for every
+    numbered symbol (all branching numbers positive). -/
+theorem counters_consecutive (ds : DSetData) (g : Geom) (l : List (Nat × List Nat)) (c : Ctx)
+    (h : generate ds g = .ok (l, c)) :
+    mkCtx ds g = .ok c ∧ dsyms c = l.map (fun p => .ok p.2) ∧
+    l.map (·.1) = (List.range l.length).map (· + 1) ∧
+    ∀ p, p ∈ l → ∀ v, v ∈ p.2 → 0 < v := by
+  unfold generate at h
+  split at h
+  · rename_i c' hc
+    split at h
+    · rename_i l' hl
+      cases h
+      obtain ⟨h1, h2, h3⟩ := numbered_spec _ _ _ hl
+      exact ⟨hc, h1, h2, h3⟩
+    · cases h
+    · cases h
+  · cases h
+  · cases h
+
+example : (generate ex1 .all).isOk = true := by decide +kernel
+
 /-! ### 6. the oracle's box -/
 
 /-- **`box_suffices`**: for orbit data with positive sizes and periods (`orbitsOk`), whenever the
@@ -344,5 +396,69 @@ example : SpecC07.orbitsOk exOrbs = true ∧
     (SpecC07.curvature 1 exOrbs [3, 6]).isZero = true ∧
     SpecC07.minimallyHyperbolic 1 exOrbs (exOrbs.map fun o => SpecC07.vminOf o.r) [3, 7] = true := by
   decide +kernel
+
+/-! ### open (not theorems): the statements, for the record -/
+
+/-- the Spec's view of the symbol (`ds`, `vs`): the tables the driver transmits -/
+def symOf (ds : DSetData) (c : Ctx) (vs : List Nat) : SpecC03.Sym :=
+  { size := ds.size, dim := ds.dim, op := ds.op,
+    v := ((List.range ds.dim).flatMap fun i => (List.range ds.size).map fun d0 =>
+      vTable c vs i (d0 + 1)).toArray }
+
+/-- a D-set in the property's domain: complete involutions, two-dimensional, s0 s2 = s2 s0, connected -/
+def InDomain (ds : DSetData) : Prop :=
+  ValidSet ds ∧ ds.dim = 2 ∧ ds.viewSimple.isConnected = true ∧
+  ∀ d, 1 ≤ d → d ≤ ds.size → ds.opU 2 (ds.opU 0 d) = ds.opU 0 (ds.opU 2 d)
+
+/-- `f` is an automorphism of the D-set -/
+def IsAut (ds : DSetData) (f : Nat → Nat) : Prop :=
+  (∀ d, 1 ≤ d → d ≤ ds.size → 1 ≤ f d ∧ f d ≤ ds.size) ∧
+  (∀ d e, 1 ≤ d → d ≤ ds.size → 1 ≤ e → e ≤ ds.size → f d = f e → d = e) ∧
+  ∀ i d, i ≤ ds.dim → 1 ≤ d → d ≤ ds.size → f (ds.opU i d) = ds.opU i (f d)
+
+/-- the orbit map `m` is the action of `f` on the orbit numbers -/
+def Induces (c : Ctx) (f : Nat → Nat) (m : List Nat) : Prop :=
+  m.length = c.count ∧
+  ∀ i d, i < c.dset.dim → 1 ≤ d → d ≤ c.dset.size →
+    m.getD ((c.orbitIndex.getD i #[]).getD d 0) 0 = (c.orbitIndex.getD i #[]).getD (f d) 0
+
+/-- ◐ the orbit maps are exactly the action of the automorphism group of the D-set on its
+    (i,i+1)-orbits.  With `canonical_iff` this makes the canonical vectors exactly one (the
+    lexicographically largest) per automorphism class.  Needs `automorphisms()` exact (C04);
+    decided by the Spec clauses `no-two-emitted-symbols-isomorphic` and
+    `every-expected-class-is-emitted-exactly-once` on every explored case. -/
+def orbit_maps_exact_statement : Prop :=
+  ∀ (ds : DSetData) (g : Geom) (c : Ctx) (ms : List (List Nat)), InDomain ds →
+    mkCtx ds g = .ok c → c.maps = some ms →
+      (∀ m, m ∈ ms → ∃ f, IsAut ds f ∧ Induces c f m) ∧
+      (∀ f, IsAut ds f → ∃ m, m ∈ ms ∧ Induces c f m)
+
+/-- ◐ for positive curvature the key built by the generator's private `orbifold_symbol` is on the
+    list iff the orbifold named by `delaney2d::orbifold_symbol` (C08 model, as the Spec uses it)
+    is one of the orbifolds the list names.  Decided by the Spec's comparison of the emitted
+    spherical set with the expected one on every explored case. -/
+def private_orbifold_symbol_agrees_statement : Prop :=
+  ∀ (ds : DSetData) (g : Geom) (c : Ctx) (vs : List Nat) (key : String) (b : SpecC08.Orb), InDomain ds →
+    mkCtx ds g = .ok c → Adm c vs → 0 < scaled c vs → orbifoldSymbol c vs = .ok key →
+    SpecC07.orbOf (symOf ds c vs) (symOf ds c vs).v = some b →
+      (Tables.goodSphericalOrbifolds.contains key = true ↔ SpecC07.onGoodList b = true)
+
+/-- ◐ the exact rational curvature of the generator's orbit tables (in which `dsyms_output` is
+    stated) is the Spec's curvature of the same assignment.  Needs the dihedral orbit-size lemma
+    (C08) and the correctness of `collect_orbits`' chain flag (C02); decided by the Spec clauses
+    on the curvature of every emitted symbol and by the set comparison. -/
+def curvQ_is_spec_curvature_statement : Prop :=
+  ∀ (ds : DSetData) (g : Geom) (c : Ctx) (vs : List Nat), InDomain ds →
+    mkCtx ds g = .ok c → Adm c vs →
+      (SpecC07.curvature ds.size (SpecC07.orbits (symOf ds c vs))
+        (SpecC07.assignmentOf (SpecC07.orbits (symOf ds c vs)) (symOf ds c vs))).val = curvQ c vs
+
+/-- ○ the premise of `box_suffices` holds for every D-set of the domain (classification of the
+    2-orbifolds with K ≥ 0: only the infinite families and the bad orbifolds carry orders ≥ 8).
+    Evaluated by the Spec for every explored D-set (`oracle-box-premise-holds`). -/
+def box_premise_statement : Prop :=
+  ∀ (g : SpecC03.Sym), SpecC07.inDomain g = true →
+    SpecC07.boxPremise g.size (SpecC07.orbits g)
+      ((SpecC07.orbits g).map fun o => SpecC07.vminOf o.r) SpecC07.boxTop = true
 
 end DSymVerif.C07
